@@ -47,4 +47,16 @@ CHECKS = {
         "note": "Tied to newton.rs by trace replay (first-iteration decision, order 'residual test before the step' also checked by the translator); the chain oracle re-solves real results up to 4 times, adding already-satisfied constraints.",
         "technique": "Lean 4 proof (one unfolding of the loop; ghost 'stopped at residual test' flag) + trace-replay correspondence + re-solve chain oracle",
     },
+    "C08": {
+        "text": "Machine-checked proof (Lean 4) that, for any number of points, circles and arcs in any declaration order, the executor's label lookups return exactly the variable ids of an independently written layout specification (sequential allocation points → circles → arcs; arcs after the points AND the circles), that every point-role / radius label resolves to the specified entity with the documented precedence or to an UndefinedPoint error, and that the variable list has one slot per specified variable. Grammar, guess values and labelled outcome: exact differential correspondence plus comparison with hand-built constraints.",
+        "design_ref": "DESIGN.md §6 C08",
+        "note": "The lowering of each instruction form is tied to executor.rs by corr-text (exact comparison of constraints, guesses and labels on generated texts that mix circles and arcs) and by the hand-built-constraints oracle; the winnow grammar is modelled by hand.",
+        "technique": "Lean 4 proof (layout invariant of the variable builder; index arithmetic) + exact text correspondence + hand-built-constraints oracle",
+    },
+    "C09": {
+        "text": "Machine-checked proof (Lean 4) that the model executor never indexes out of bounds for any parsed problem (it returns Ok or a textual error), that an accepted problem has a guess for every declared entity and no guess for an undeclared one, that an unresolvable label is an UndefinedPoint error, and that every constraint-stating instruction of an accepted problem contributes exactly one constraint; the model parser is total. Stack depth and input length are exercised on the real parser in a child process.",
+        "design_ref": "DESIGN.md §6 C09",
+        "note": "Tied to parser.rs / executor.rs by the exact correspondence on the mutation stream (accept/reject, error class and label, instruction list). Stack overflow is a runtime behaviour no Lean term exhibits: observed through a child process's exit status.",
+        "technique": "Lean 4 proof (executor totality, guess-map accounting, one-constraint-per-instruction) + exact text correspondence on a mutation stream + child-process stress run",
+    },
 }
